@@ -42,6 +42,12 @@ type IfaceVal struct {
 
 type FuncRef struct{ Fn *ssa.Function }
 
+// ClosureVal is a function value built by MakeClosure.
+type ClosureVal struct {
+	Fn       *ssa.Function
+	Bindings []Val
+}
+
 // UntypedInt is an integer literal in a contract expression before it meets a
 // typed operand.
 type UntypedInt struct{ V interface{ String() string } }
